@@ -29,7 +29,11 @@ def run_harness(R, exe, n, seed, exhaustive, tag):
     trace = os.path.join(R.rundir, "trace" + tag)
     env = vlib.goenv()
     env.update(VERIF_SEED=str(seed), VERIF_N=str(n), VERIF_OUT=trace, VERIF_EXHAUSTIVE="1" if exhaustive else "0")
-    rc, out = vlib.sh([exe, "-test.run", "TestTrace$", "-test.count=1", "-test.timeout=0"], env=env, timeout=3000)
+    rc, out = vlib.sh([exe, "-test.run", "TestTrace$", "-test.count=1", "-test.timeout=0"], env=env, timeout=75 if R.quick else 3000)
+    if rc == 124:
+        R.oracle_failure("harness-timeout", "the event-level run did not finish within its wall-clock budget: the real routers do not come to rest in a bounded number of exchanges under the generated schedules",
+                         dict(output=out[-2000:], seed=seed, n=n, exhaustive=exhaustive))
+        return trace if os.path.exists(trace) else None
     if rc != 0:
         R.oracle_failure("harness-crash", "the Go harness aborted (panic or deadlock in the dv code under the generated schedule)",
                          dict(output=out[-3000:], seed=seed, n=n, exhaustive=exhaustive))
@@ -126,10 +130,13 @@ def analyse(R, runner, trace, tag):
                     "stale_data_changed_state": "advertisement Data whose sequence number is not the latest one announced by that neighbour (delayed / reordered Data, or Data of a neighbour that is gone) changed the real router's RIB: an out-of-date advertisement is processed and what it lists is (re-)installed",
                     "live_neighbour_declared_dead": "the real dead sweep removed a neighbour from which a Sync Interest had been received within RouterDeadInterval (a heartbeat with an unchanged sequence number did not refresh its liveness)",
                     "restart_not_noticed": "a neighbour restarted (fresh NewRouter, same name) inside the dead interval; its Sync Interest and advertisement Data were delivered, yet the real router still stores the old incarnation's routes through it (the new initial sequence number is not larger than the remembered one)",
+                    "refresh_not_two_least": "the real RibEntry.refresh (through ribUpdate/Set) did not select the two least (cost, next-hop hash) pairs on an entry with ties",
+                    "refresh_unstable": "re-delivering an UNCHANGED advertisement to the real router reported a change / flipped a next hop among tied costs: the result of refresh depends on the Go map iteration order (ties are not broken the same way every time; the exchange cannot come to rest)",
+                    "no_quiescence_proto": "the real routers running their own Start() loops kept exchanging advertisements without end on a stable topology (event budget of the simulated network exhausted): no fixed point within a bounded number of exchanges",
                     "no_quiescence": "the notification-driven schedule of the real routers did not come to rest",
                     "harness": "the harness saw an ill-formed table/advertisement"}.get(which, which)
             rep = dict(case=p[2], detail=detail[:3000], ops=ops[-6000:], trace_line=ln)
-            if R._shrinks < 2 and len(ops) <= 6000:
+            if R._shrinks < 2 and len(ops) <= 6000 and any(x.startswith("chk") for x in ops):
                 R._shrinks += 1
                 small, ok = shrink(R, R._exe, R._runner, ops, which)
                 if ok:
@@ -151,7 +158,11 @@ def run_proto(R, exe, runner, n, seed):
     """protocol level: real Start() loops over a simulated network; spec oracle against the physical topology"""
     trace = os.path.join(R.rundir, "ptrace")
     env = vlib.goenv(); env.update(VERIF_SEED=str(seed), VERIF_N=str(n), VERIF_OUT=trace)
-    rc, out = vlib.sh([exe, "-test.run", "TestProto$", "-test.count=1", "-test.timeout=0"], env=env, timeout=3000)
+    rc, out = vlib.sh([exe, "-test.run", "TestProto$", "-test.count=1", "-test.timeout=0"], env=env, timeout=60 if R.quick else 3000)
+    if rc == 124:
+        R.oracle_failure("proto-harness-timeout", "the protocol-level run did not finish within its wall-clock budget (the real routers keep exchanging advertisements)",
+                         dict(output=out[-2000:], seed=seed, n=n))
+        return
     if rc != 0:
         R.oracle_failure("proto-harness-crash", "the protocol-level harness aborted (panic or deadlock of the real router loops)",
                          dict(output=out[-3000:], seed=seed, n=n))
@@ -207,8 +218,10 @@ def run_race(R, n, seed):
         R.proof_problems.append("race build of the dv harness failed: " + log[-300:]); return
     trace = os.path.join(R.rundir, "ptrace-race")
     env = vlib.goenv(); env.update(VERIF_SEED=str(seed), VERIF_N=str(n), VERIF_OUT=trace, GORACE="halt_on_error=0")
-    rc, out = vlib.sh([exe, "-test.run", "TestProto$", "-test.count=1", "-test.timeout=0"], env=env, timeout=3000)
+    rc, out = vlib.sh([exe, "-test.run", "TestProto$", "-test.count=1", "-test.timeout=0"], env=env, timeout=60 if R.quick else 3000)
     d = R.coverage.setdefault("distribution", {})
+    if rc == 124:
+        R.notes.append("race run stopped by its wall-clock budget")
     d["race_proto_cases"] = d.get("race_proto_cases", 0) + n
     blocks = out.split("WARNING: DATA RACE")[1:]
     seen = set()
@@ -235,7 +248,7 @@ def run_race(R, n, seed):
                          dict(report=("WARNING: DATA RACE" + b)[:3500], seed=seed, n=n,
                               replay_hint="go1.26 test -race -tags verif ./harness/dv -run TestProto with VERIF_SEED=%d VERIF_N=%d" % (seed, n)))
     d["race_reports"] = d.get("race_reports", 0) + len(blocks)
-    if rc != 0 and not blocks:
+    if rc != 0 and rc != 124 and not blocks:
         R.oracle_failure("proto-harness-crash-race", "the protocol-level harness aborted under -race", dict(output=out[-3000:], seed=seed, n=n))
 
 
